@@ -12,7 +12,7 @@ import z3
 from .interp import (PyRaise, NeedFork, Infeasible, is_pynum, kind_of, zof, join_kind, mk, zbool, FP, RNE)
 from .values import (S, VOpt, VQty, VTime, VDelta, VEnum, SEnum, VRec, VRef, HObj, HList, HDict,
                      HSet, SymSeq, SymSet, SymMap, FuncRef, ClassRef, ModRef, ExtRef,
-                     BoundBuiltin, Opaque, Unsupported, fresh_name, zreal, KeySetVal, HKeySet, HOptDict)
+                     BoundBuiltin, Opaque, Unsupported, fresh_name, zreal, KeySetVal, HKeySet, HOptDict, HSymList)
 
 BUILTINS = {
     "max", "min", "abs", "len", "sum", "all", "any", "isinstance", "float", "int", "bool", "set",
@@ -393,6 +393,9 @@ def call_bound(it, f: BoundBuiltin, args, kwargs):
         if isinstance(h, HOptDict):
             from . import optdict
             return optdict.method(it, t, h, name, args, kwargs)
+        if isinstance(h, HSymList):
+            from . import symlist
+            return symlist.method(it, t, h, name, args, kwargs)
     if isinstance(t, frozenset):
         if name == "union":
             out = set(t)
@@ -878,6 +881,8 @@ def call_builtin(it, name, args, kwargs):
             if isinstance(h, HOptDict):
                 from . import optdict
                 return optdict.length(it, h)
+            if isinstance(h, HSymList):
+                return mk(h.seq.length, "int")
             return it.call_method(x, "__len__", [], {})
         if isinstance(x, SymSeq):
             return mk(x.length, "int")
